@@ -612,7 +612,7 @@ REGISTRY.update({
         targets=["PsProps.C12"],
         theorems=[("PsProps.C12", "Ps.Props.C12_primePi_lookups"), ("PsProps.C12", "Ps.Props.C12_small_prime_copy"),
                   ("PsProps.C12", "Ps.Props.C12_next_buffer_slack"), ("PsProps.C12", "Ps.Props.C12_fill_default_in_bounds"),
-                  ("PsProps.C12", "Ps.Props.C12_fill_avx512_in_bounds"), ("PsProps.C12", "Ps.Props.C12_fill_prev_in_bounds"),
+                  ("PsProps.C12", "Ps.Props.C12_fill_avx512_in_bounds"), ("PsProps.C12", "Ps.Props.C12_fill_prev_in_bounds"), ("PsProps.C12", "Ps.Props.C12_eratSmall_unrolled_in_bounds"),
                   ("PsProps.C12", "Ps.Props.C12_decode_tables"), ("PsProps.C12", "Ps.Props.C12_constants"),
                   ("PsProps.C12", "Ps.Props.C12_signed"), ("PsProps.C12", "Ps.Props.C12_assert_ledger"),
                   ("PsProps.C12", "Ps.Props.C12_fill_source")],
